@@ -112,11 +112,14 @@ package transaction
 //@   at call(resolveFlushedLocks) assert outcome: arg_commit && c.mu.committed && arg_start == c.pipelinedCommitInfo.pipelinedStart && arg_end == c.pipelinedCommitInfo.pipelinedEnd
 //@   ensures committed: result == nil ==> c.mu.committed
 
-// Rollback of a pipelined transaction resolves the same tracked range with the rollback outcome.
+// Rollback of a pipelined transaction resolves the same tracked range with the rollback outcome. (C06:) An explicit
+// Rollback of a valid pessimistic transaction that holds locks (and is not in the middle of an aggressive locking attempt,
+// which it refuses) has tried to roll them back through its committer before it returns.
 //@ func (*KVTxn) Rollback
-//@   prop C16
+//@   prop C16 C06
 //@   bytes: key
-//@   opaque-callee rollbackPessimisticLocks close FlushWait broadcastToAllStores resolveFlushedLocks spawnWithStorePool
+//@   opaque-callee rollbackPessimisticLocks close FlushWait broadcastToAllStores resolveFlushedLocks spawnWithStorePool CancelAggressiveLocking
+//@   at return assert released: result == nil && old(txn.valid) && old(txn.isPessimistic) && old(txn.committer) != nil && old(txn.lockedCnt) != 0 && old(txn.aggressiveLockingContext) == nil ==> old(txn.committer).rbTried
 //@   at def(rollbackBo) assert detached: rollbackBo.ctx == storeCtxOf(txn.store)
 //@   at call(resolveFlushedLocks) assert outcome: !arg_commit && arg_start == txn.committer.pipelinedCommitInfo.pipelinedStart && arg_end == txn.committer.pipelinedCommitInfo.pipelinedEnd && arg_start != "" && arg_end != ""
 
@@ -381,3 +384,25 @@ package transaction
 //@   opaque-callee trySkipLockingOnRetry mayAggressiveLockingLastLockedKeysExpire StartTS
 //@   loop 1 invariant count: txn.lockedCnt == old(txn.lockedCnt) && txn.aggressiveLockingContext == old(txn.aggressiveLockingContext)
 //@   ensures count: txn.lockedCnt == old(txn.lockedCnt)
+
+// ---- C06: explicit Rollback ---------------------------------------------------------------------------------------------
+// The keys handed to the pessimistic rollback are all keys of the buffer that carry the "locked" flag.
+//@ func (*KVTxn) collectLockedKeys
+//@   prop C06
+//@   bytes: key
+//@   may-panic
+//@   opaque-callee GetMemDB GetMemBuffer
+//@   loop 1 invariant pos: it != nil && 0 <= it.apos
+//@   loop 1 invariant all: forall p int :: 0 <= p && p < it.apos && p < art.aLen(it) && (art.aFlags(it, p) / 2) % 2 == 1 ==> exists j int :: 0 <= j && j < len(keys) && keys[j] == art.aKey(it, p)
+//@   at return assert all: forall p int :: 0 <= p && p < art.aLen(it) && (art.aFlags(it, p) / 2) % 2 == 1 ==> exists j int :: 0 <= j && j < len(result) && result[j] == art.aKey(it, p)
+
+// Rolling back the pessimistic locks sends - unless the transaction holds none - a rollback for exactly the collected
+// keys through the transaction's committer, and reports its error.
+//@ func (*KVTxn) rollbackPessimisticLocks
+//@   prop C06
+//@   bytes: key
+//@   may-panic
+//@   opaque-callee collectLockedKeys NewBackofferWithVars WithRPCInterceptor SetCtx GetCtx
+//@   at call(pessimisticRollbackMutations) assert all: recv == txn.committer && arg_mutations.(*PlainMutations).keys == keys
+//@   ensures tried: old(txn.lockedCnt) != 0 ==> txn.committer.rbTried && (result == nil && !old(txn.committer.rbDone) ==> txn.committer.rbDone)
+//@   ensures same: txn.committer == old(txn.committer)
